@@ -5,6 +5,7 @@ import (
 	"go/ast"
 	"go/constant"
 	"go/types"
+	"os"
 	"path/filepath"
 	"sort"
 	"strings"
@@ -270,9 +271,12 @@ func errorDomains(c *engine.Ctx, id string, pkgs []string) {
 		if len(prods) == 0 {
 			continue
 		}
-		o.Site(cs.Pos + " " + cs.Callee + "(" + arg.Name + ") with " + arg.Name + " from " + engine.ShortFuncName(prods[0]))
-		o.Eval(1)
 		got := d.Of(prods[0])
+		o.Site(cs.Pos + " " + cs.Callee + "(" + arg.Name + ") with " + arg.Name + " from " + engine.ShortFuncName(prods[0]) + " [" + got.String() + "]")
+		o.Eval(1)
+		if os.Getenv("OCC_DEBUG_DOMAINS") != "" {
+			fmt.Println("domain:", cs.Pos, cs.Callee, "want", want, "got", got, "from", engine.ShortFuncName(prods[0]))
+		}
 		// only definite cross-domain mismatches count: a raw (third-party) error reaching errors.Status
 		// is converted to Internal by design, and "raw" is too weak an inference to arm
 		// strict for the southbound client: its methods exist to turn device (gRPC) errors into typed ones
@@ -289,7 +293,10 @@ func errorDomains(c *engine.Ctx, id string, pkgs []string) {
 				Msg: fmt.Sprintf("%s classifies the error of %s, which is not a typed error on every path (%s; implementations:%s): an unwrapped gRPC/Atomix error is classified as Internal/no class", cs.Callee, engine.ShortFuncName(prods[0]), got, impl)})
 			continue
 		}
-		if (got == engine.DomTyped || got == engine.DomGRPC) && got != want {
+		// definite mismatches: the producer is wholly in the other domain, or a gRPC classifier
+		// (status.Code) is applied to a producer with a typed part — a *TypedError has no GRPCStatus
+		// method, so every typed error would read as codes.Unknown
+		if ((got == engine.DomTyped || got == engine.DomGRPC) && got != want) || (want == engine.DomGRPC && got&engine.DomTyped != 0) {
 			impl := ""
 			for _, im := range d.Implementations(prods[0]) {
 				impl += " " + engine.ShortFuncName(im)
@@ -344,8 +351,8 @@ func classComposition(c *engine.Ctx) {
 		}
 		return ""
 	}
-	typeToCode := engine.SwitchTable(lib["Status"].Body, "Type", retCall)       // Unknown -> codes.Unknown
-	codeToNew := engine.SwitchTable(lib["FromStatus"].Body, "Code", retCall)    // codes.Unknown -> NewUnknown
+	typeToCode := engine.SwitchTable(lib["Status"].Body, "Type", retCall)    // Unknown -> codes.Unknown
+	codeToNew := engine.SwitchTable(lib["FromStatus"].Body, "Code", retCall) // codes.Unknown -> NewUnknown
 	o.Site(fmt.Sprintf("onos-lib-go Status: %d entries, FromStatus: %d entries", len(typeToCode), len(codeToNew)))
 	// repo tables
 	var codeToFail, failToNew map[string]string
